@@ -143,7 +143,17 @@ def tagged(text, tag):
 
 
 def rejects(text):
-    return [l for l in text.splitlines() if l.startswith('<<"REJECT') or 'NOT ACCEPTED' in l]
+    """lines that say a trace was not accepted (for display); see reject_list for the parsed form"""
+    return [l for l in text.splitlines() if l.startswith('"REJECT ') or 'NOT ACCEPTED' in l]
+
+
+def reject_list(text):
+    """REJECT records printed by a trace specification: PrintT("REJECT " \\o ToJson([l, tag, expected, observed, ...])), one line each.
+    Every occurrence of the word must parse: output that mentions REJECT in another shape is a tool error, never silently 'accepted'."""
+    recs = tagged(text, 'REJECT')
+    if text.count('REJECT') != len(recs):
+        raise ToolError(f'unparsed REJECT output of a trace specification ({text.count("REJECT")} mentions, {len(recs)} parsed)')
+    return recs
 
 
 # ------------------------------------------------------------------ evidence / verdicts
